@@ -200,7 +200,7 @@ def random_history(rng, cid, maxops, K=None, H=None, V=None):
             ops.append(f"EQ {i} {rng.choice(live)}")
         elif r < 0.98 and interner:
             l = [rand_str(rng) for _ in range(rng.randrange(0, 5))]
-            ops.append(f"EX {i} {','.join(hx(x) for x in l) or '.'}"); seen.extend(l)
+            ops.append(f"EX {i} {','.join(hx(x) for x in l) or '.'} {rng.choice(['exact', 'none', 'low', 'high'])}"); seen.extend(l)
         elif len(kinds) < 6:
             l = [rand_str(rng) for _ in range(rng.randrange(0, 6))]
             t = rng.choice(["r", "t"])
@@ -396,6 +396,26 @@ def eq_pairs(tier, rng, count):
             pass
         yield case(f"eq{n}", cfg(K=K if len(base) <= 5 and len(other) <= 5 else "spur", H=rng.choice(HASHERS), P=entries), ops)
 
+def eq_static_slices(rng, count):
+    """same key, 'static strings that START AT THE SAME ADDRESS but differ in length (a slice and its base)"""
+    for n in range(count):
+        base = rng.choice([b"interner", b"static string", b"abcdefgh"])
+        cut = rng.randrange(0, len(base))
+        pool = [hx(base), f"@0.0.{cut}", hx(b"other")]
+        pre = [rand_str(rng) for _ in range(rng.randrange(0, 3))]
+        pre = [s for s in dict.fromkeys(pre) if s not in (base, base[:cut], b"other")]
+        ops = []
+        for which, sidx in ((0, 0), (1, 1)):
+            ops.append(f"NR {rng.choice([4, 64])} max 0 {rng.randrange(50)}")
+            ops += [f"I {which} {hx(s)}" for s in pre]
+            ops.append(f"IS {which} {sidx}")
+            ops.append(f"IS {which} 2")
+            conv = rng.choice(["", "", "RD", "RS"])
+            if conv:
+                ops.append(f"{conv} {which}")
+        ops += ["EQ 0 1", "EQ 1 0", "EQ 0 0", "IT 0 nnnn", "IT 1 nnnn"]
+        yield case(f"es{n}", cfg(K="spur", H=rng.choice(HASHERS), P=pool), ops)
+
 def eq_after_exhaustion(rng):
     """a concurrent interner whose key counter overshot (failed interns) must still compare by content"""
     n = 0
@@ -543,7 +563,7 @@ def collections(tier, rng, count):
             ops.append(f"IP 1 {hx(s)}")
         ops += ["EQ 0 1", "IT 0 nnnnnnnnnn", "IT 1 nnnnnnnnnn"]
         l2 = [rand_str(rng) for _ in range(rng.randrange(0, 6))] + l[:2]
-        ops.append(f"EX 0 {','.join(hx(x) for x in l2) or '.'}")
+        ops.append(f"EX 0 {','.join(hx(x) for x in l2) or '.'} {['exact', 'none', 'low', 'high'][(n // 4) % 4]}")
         for s in l2:
             ops.append(f"IP 1 {hx(s)}")
         ops += ["EQ 0 1", "LEN 0", "LEN 1", "IX 0 0", "R 0 0", f"IX 0 {len(l) + len(l2) + 1}", f"R 1 {len(l) + len(l2) + 1}", "IT 0 bbbbbbbbbbbbbbbb"]
